@@ -22,6 +22,7 @@ import WuffsVerif.Proof.Flate.Walk2
 import WuffsVerif.Proof.Flate.FixedCut2
 import WuffsVerif.Proof.Flate.Assembly
 import WuffsVerif.Proof.Flate.CutAll
+import WuffsVerif.Proof.Flate.Whole2
 
 namespace WuffsVerif.Props.C16
 open WuffsVerif.Flate WuffsVerif.Flate.Cut WuffsVerif.Flate.Spec
@@ -137,20 +138,11 @@ theorem inflate_empty_fixed_block : Spec.inflate #[3, 0] = some (#[], 2) := Spec
 
 /-! ## 3. THE property
 
-Full statement (`cut_prefix`), for every valid DEFLATE stream:
-
--- OPEN (one clause): theorem cut_prefix (w : Bool) (s : Bytes) (out : Bytes) (n : Nat) (limit : Int) (r : CutResult)
---     (hs : Spec.inflate s = some (out, n)) (h : Cut.Cut w s limit = .ok r) :
---     Spec.inflate (r.encoded.extract 0 r.encodedLen) = some (out.extract 0 r.decodedLen, r.encodedLen) ∧
---     r.decodedLen ≤ out.size ∧
---     ((s.size : Int) ≤ limit → s.size ≤ 2 ^ 30 → r.decodedLen = out.size) ∧
---     (w = true → r.written = out.extract 0 r.decodedLen)
--- Proved below as `cut_prefix_partial` for EVERY valid stream (stored, fixed and dynamic Huffman blocks, any
--- number, any order) except the third clause ("limit ≥ len ⇒ the whole output"), which is proved only for
--- streams of stored blocks (`cut_prefix_stored_partial`) and checked by the oracle otherwise.  (Note the
--- `s.size ≤ 2^30` premise: `Cut` clamps `maxEncodedLen` to 1 GiB, so for longer streams that clause is
--- false of the code as written.  `hT` below excludes outputs of 2 GiB or more, where Go's `int32`
--- `decodedLen` would overflow.)
+`cut_prefix` (below, after the staging theorems it subsumes) is the property itself, proved for every valid
+DEFLATE stream: stored, fixed-Huffman and dynamic-Huffman blocks, any number, any order.  Two side
+conditions are part of the statement because the code as written needs them: `T.size < 2^31` (Go's
+`decodedLen` is an `int32`) and, for the clause "limit ≥ len ⇒ the whole output", `s.size ≤ 2^30` (`Cut`
+clamps `maxEncodedLen` to 1 GiB, so for longer streams that clause is false of the code).
 
 The stored-block theorems of round 1 come first. -/
 
@@ -437,27 +429,55 @@ theorem cut_prefix_nodynamic_partial (w : Bool) (s T : Bytes) (n0 : Nat) (limit 
     r.decodedLen ≤ T.size ∧ (w = true → r.written = T.extract 0 r.decodedLen) :=
   Cut.Cut_nodyn w s T n0 limit r hs hT hnd h
 
-/-- **cut_prefix — THE property, for EVERY valid DEFLATE stream** (`_partial` only because the clause
-"limit ≥ len ⇒ the whole output" is not included, see the OPEN note above): `s` is any byte string that
-the RFC 1951 spec decoder maps to `T` — stored, fixed-Huffman and dynamic-Huffman blocks, any number of
-them in any order, at any bit alignment, any trailing bytes — `limit` is any limit, `w` says whether a
-writer is passed.  Whenever `Cut` succeeds, the first `encodedLen` bytes of the modified buffer are a
-complete valid DEFLATE stream (the spec decoder consumes exactly `encodedLen` bytes) whose decompression
-is exactly the first `decodedLen` bytes of the original decompression, `decodedLen ≤ |T|`, and the writer
-receives exactly those bytes.  (`encodedLen ≤ limit` and `≤ len`: `cut_lengths_in_bounds`; no panic on
-arbitrary bytes: `cut_never_panics`.)
+/-- **cut_prefix — THE property, for EVERY valid DEFLATE stream**: `s` is any byte string that the
+RFC 1951 spec decoder maps to `T` — stored, fixed-Huffman and dynamic-Huffman blocks, any number of them
+in any order, at any bit alignment, any trailing bytes — `limit` is any limit, `w` says whether a writer
+is passed.  Whenever `Cut` succeeds,
+* the first `encodedLen` bytes of the modified buffer are a complete valid DEFLATE stream (the spec
+  decoder consumes exactly `encodedLen` bytes) whose decompression is exactly the first `decodedLen`
+  bytes of the original decompression,
+* `decodedLen ≤ |T|`,
+* it is the whole original when the limit is not smaller than the stream,
+* and the writer receives exactly those bytes.
+(`encodedLen ≤ limit` and `≤ len`: `cut_lengths_in_bounds`; no panic on arbitrary bytes:
+`cut_never_panics`.)
 Proof: `Cut.cutLoop_walk` (the block loop of `cut` in lock-step with the spec's block loop) over
 `stored_blocksim`, `fixed_blocksim`, `dynamic_blocksim` (the header parser of `doDynamicHuffman` against
 `Spec.dynamicHeader`: `doDynamicHuffman_eq`, `readCLL_sim`, `readLengths_sim`, `mkHuff_pad`), the
 locality of the spec decoder (`blockAt_stored/fixed/dynamic`, `dynamicHeader_local`, `huffTok_local`),
 `decode_agrees_with_spec`, `huffman_walk_tracks_spec`, `huffman_surgery`, `eob_decodes` (via
 `endCode_canonical`), the bit-level effect of the in-place writes (`writeEndCode_bits`,
-`patchFinalBit_bits`, `finish_bits`) and `cutSingleBlock_prefix`. -/
-theorem cut_prefix_partial (w : Bool) (s T : Bytes) (n0 : Nat) (limit : Int) (r : CutResult)
+`patchFinalBit_bits`, `finish_bits`), `cutSingleBlock_prefix`; third clause: `Cut.cutLoop_whole`
+(`huffLoop_full`: a block that ends inside the budget is walked to its end). -/
+theorem cut_prefix (w : Bool) (s T : Bytes) (n0 : Nat) (limit : Int) (r : CutResult)
     (hs : Spec.inflate s = some (T, n0)) (hT : T.size < 2147483648) (h : Cut.Cut w s limit = .ok r) :
     Spec.inflate (r.encoded.extract 0 r.encodedLen) = some (T.extract 0 r.decodedLen, r.encodedLen) ∧
-    r.decodedLen ≤ T.size ∧ (w = true → r.written = T.extract 0 r.decodedLen) :=
-  Cut.Cut_all w s T n0 limit r hs hT h
+    r.decodedLen ≤ T.size ∧
+    ((s.size : Int) ≤ limit → s.size ≤ 2 ^ 30 → r.decodedLen = T.size) ∧
+    (w = true → r.written = T.extract 0 r.decodedLen) :=
+  let h3 := Cut.Cut_all w s T n0 limit r hs hT h
+  ⟨h3.1, h3.2.1, fun a b => Cut.Cut_whole w s T n0 limit r hs hT h a b, h3.2.2⟩
+
+/-- **zlibcut_prefix for zlib streams without a preset dictionary** (`_partial`: FDICT streams are
+missing — there `flatecut.Cut` re-decodes the data without the dictionary): for every valid zlib stream
+`s` (RFC 1950 header, DEFLATE data, Adler-32) whose FDICT bit is clear and every limit, a successful
+`zlibcut.Cut` yields, in the first `encodedLen` bytes of the buffer, a complete valid zlib stream — the
+same header, the DEFLATE data as cut by `flatecut.Cut`, and the big-endian Adler-32 of the decoded prefix
+— that decodes to exactly the first `decodedLen` bytes of the original decompression; the writer receives
+those bytes. -/
+theorem zlibcut_prefix_partial (s T : Bytes) (n : Nat) (limit : Int) (r : CutResult)
+    (hz : Spec.zlibDecode #[] s = some (T, n)) (hnd : ¬ ((s.getD 1 0).toNat / 32 % 2 = 1))
+    (hT : T.size < 2147483648) (h : ZlibCut.Cut s limit = .ok r) :
+    Spec.zlibDecode #[] (r.encoded.extract 0 r.encodedLen) = some (T.extract 0 r.decodedLen, r.encodedLen) ∧
+    r.decodedLen ≤ T.size ∧ r.written = T.extract 0 r.decodedLen :=
+  ZlibCut.Cut_prefix s T n limit r hz hnd hT h
+
+/-- The spec decoder only looks at the bits of the stream: a buffer with the same bytes up to the end of
+the final block decodes to the same output (used for the zlib trailer and for the cut buffers). -/
+theorem inflate_local (s s'' T : Bytes) (n0 : Nat) (h : Spec.inflate s = some (T, n0))
+    (hag : ∀ j, j < n0 → s''.getD j 0 = s.getD j 0) (hsz : n0 ≤ s''.size) :
+    Spec.inflate s'' = some (T, n0) :=
+  Cut.inflate_local s s'' T n0 h hag hsz
 
 /-- non-vacuity: `4b 04 00` (the letter "a" as one final fixed-Huffman block) meets the hypotheses. -/
 example : Spec.bitAt #[0x4b, 0x04, 0x00] 0 = 1 ∧ Spec.bitsLE #[0x4b, 0x04, 0x00] 1 2 = 1 := by decide
